@@ -160,6 +160,9 @@ void throw_error () {
 
 static volatile int in_error = 0;
 static volatile int in_mudlib_error_handler = 0;
+/* the limit bits of the error the mudlib error handler is running for: an error raised by the handler itself
+ * goes straight to the receiving context and must not lose them (the handler may have completed a catch()) */
+static volatile int handler_limit_state = 0;
 
 static void debug_message_with_location (const char *err) {
   if (current_object && current_prog)
@@ -242,6 +245,7 @@ void error_handler (const char *err) {
           debug_message_with_location (err);
           dump_trace (g_trace_flag);
           in_mudlib_error_handler = 0;
+          set_error_state (handler_limit_state);
         }
       else
         {
@@ -249,6 +253,7 @@ void error_handler (const char *err) {
            * context, which clears the error state: keep it for do_catch() */
           int limit_state = get_error_state (ES_STACK_FULL | ES_MAX_EVAL_COST);
 
+          handler_limit_state = limit_state;
           in_mudlib_error_handler = 1;
           mudlib_error_handler (err, 1);
           in_mudlib_error_handler = 0;
@@ -288,12 +293,14 @@ void error_handler (const char *err) {
       debug_message_with_location (err);
       dump_trace (g_trace_flag);
       in_mudlib_error_handler = 0;
+      set_error_state (handler_limit_state);
     }
   else
     {
       /* keep the error state for the receiving context (see the caught case above): safe_apply() looks at it */
       int limit_state = get_error_state (ES_STACK_FULL | ES_MAX_EVAL_COST);
 
+      handler_limit_state = limit_state;
       in_mudlib_error_handler = 1;
       in_error = 0;
       mudlib_error_handler (err, 0);
